@@ -13,7 +13,7 @@ PROP = {'drive': ['Otl'], 'modules': ['SfntV.Props.C08'],
                        'C08_st_roundtrip_chainedseqcontext1', 'C08_st_roundtrip_chainedseqcontext3',
                        'C08_ctx_classpart', 'C08_st_roundtrip_seqcontext2', 'C08_st_roundtrip_chainedseqcontext2',
                        'C08_gtab_roundtrip_full', 'C08_gtab_header_v11', 'C08_readlookuplist_sound',
-                       'C08_info_roundtrip', 'C08_info_roundtrip_nonvacuous', 'C08_gdef_roundtrip_value',
+                       'C08_info_roundtrip', 'C08_info_roundtrip_nonvacuous', 'C08_gdef_roundtrip_value', 'C08_gdef_roundtrip_eq',
                        'C08_reader_prefix_only_gsub', 'C08_reader_prefix_only_gpos', 'C08_codec_law',
                        'C08_gsub_info_roundtrip', 'C08_gpos_info_roundtrip', 'C08_gsub_info_roundtrip_nonvacuous',
                        'C08_reader_cov_in_range_coverage', 'C08_reader_cov_in_range_gsub1_2',
